@@ -875,7 +875,7 @@ class M_get_reduced_dag(MgrContract):
             ('untried-one-of-candidates-are-excluded|C10', FA([x], z3.Implies(ns.contains(x), z3.And(
                 m1.G.node(x), z3.Not(m1.G.is_child(x)))), patterns=[ns.contains(x)])),
             ('reachability-ignores-case-edges|C09', FA([u, v], ops.edge_in(r['g'], u, v) == z3.And(
-                m1.G.edge(u, v), z3.Not(truthy_term(m1.G.case(u, v))),
+                m1.G.edge(u, v), m1.G.case(u, v) == NONE,
                 z3.Not(m1.G.is_child(u)), z3.Not(m1.G.is_child(v))))),
             ('node-set-is-the-nodes-between-source-and-dest', FA([x], ns.contains(x) == z3.And(
                 ops.node_in(r['g'], x), r['rs'](x), r['rd'](x)), patterns=[ns.contains(x)])),
